@@ -232,3 +232,193 @@ Section Die.
       rewrite X0, X1, Y0, Y1. repeat split; qlra.
   Qed.
 End Die.
+
+(* ---------------- the self-check ---------------- *)
+Lemma no_overlaps_of_pairwise aeps l : 0 <= aeps -> pairwise_no_ov l -> no_overlaps aeps l = true.
+Proof.
+  intro Ha. induction l as [|r l IH]; intro H; cbn [no_overlaps]; [reflexivity|].
+  destruct H as [H1 H2]. rewrite (IH H2), andb_true_r. apply forallb_forall. intros s Hs.
+  rewrite Forall_forall in H1. unfold overlap. rewrite (H1 s Hs). apply negb_true_iff. qb2p. exact Ha.
+Qed.
+
+Lemma check_ok deps tin aeps w h l : 0 < w -> 0 < h -> 0 < deps -> 0 <= tin -> 0 <= aeps ->
+  tiles l (die_rect w h) -> check_rectangles deps tin aeps w h l = None.
+Proof.
+  intros Hw Hh Hd Ht Ha (T1 & T2 & T3). unfold check_rectangles.
+  assert (A : forallb (inside_tol tin w h) l = true).
+  { apply forallb_forall. intros r Hr. rewrite Forall_forall in T1. destruct (T1 r Hr) as [_ I].
+    apply is_inside_coords in I. destruct (die_coords w h) as (D0 & D1 & D2 & D3).
+    rewrite D0, D1, D2, D3 in I. destruct I as (I1 & I2 & I3 & I4).
+    unfold inside_tol. rewrite !andb_true_iff. repeat split; qb2p; qlra. }
+  rewrite A, (no_overlaps_of_pairwise aeps l Ha T2). cbn [negb].
+  rewrite T3. unfold area, die_rect; cbn [rw rh].
+  replace (w * h - w * h) with 0 by ring.
+  assert (P : Qcltb (Qcabs 0) (deps * Qcmax w h) = true).
+  { qb2p. assert (Qcabs 0 = 0) by (unfold Qcabs; destruct (Qcleb 0 0); qlra). rewrite H.
+    assert (0 < Qcmax w h) by qmlra. qnra. }
+  rewrite P. reflexivity.
+Qed.
+
+Lemma forallb_perm {A} (p : A -> bool) l l' : Permutation l l' -> forallb p l = forallb p l'.
+Proof.
+  intro P. apply Bool.eq_iff_eq_true. rewrite !forallb_forall. split; intros H x Hx; apply H.
+  - eapply Permutation_in; [apply Permutation_sym|]; eauto.
+  - eapply Permutation_in; eauto.
+Qed.
+
+Lemma no_overlaps_perm aeps l l' : Permutation l l' -> no_overlaps aeps l = no_overlaps aeps l'.
+Proof.
+  induction 1 as [|x l l' P IH|x y l|l l' l'' P1 IH1 P2 IH2]; cbn [no_overlaps forallb].
+  - reflexivity.
+  - rewrite IH, (forallb_perm _ l l' P). reflexivity.
+  - unfold overlap. rewrite (ov_sym y x).
+    destruct (negb (Qcltb aeps (area_overlap x y))), (forallb _ l), (forallb _ l), (no_overlaps aeps l); reflexivity.
+  - congruence.
+Qed.
+
+Lemma no_overlaps_app_l aeps l1 l2 : no_overlaps aeps (l1 ++ l2) = true -> no_overlaps aeps l1 = true.
+Proof.
+  induction l1 as [|r l IH]; cbn [app no_overlaps]; [reflexivity|]. intro H.
+  apply andb_true_iff in H. destruct H as [H1 H2]. rewrite (IH H2), andb_true_r.
+  rewrite forallb_app in H1. apply andb_true_iff in H1. tauto.
+Qed.
+
+(* two input rectangles, at different positions, overlapping by more than aeps *)
+Lemma no_overlaps_false aeps l1 r l2 s l3 : aeps < area_overlap r s ->
+  no_overlaps aeps (l1 ++ r :: l2 ++ s :: l3) = false.
+Proof.
+  intro H. induction l1 as [|a l IH]; cbn [app no_overlaps].
+  - apply andb_false_iff. left. rewrite forallb_app. apply andb_false_iff. right. cbn [forallb].
+    apply andb_false_iff. left. unfold overlap. apply negb_false_iff. qb2p. exact H.
+  - rewrite IH. apply andb_false_r.
+Qed.
+
+(* ---------------- parsing ---------------- *)
+Lemma parse_pos d w h rs : parse d = Some (w, h, rs) -> 0 < w /\ 0 < h.
+Proof.
+  unfold parse. destruct (negb _); [discriminate|].
+  destruct (lookup "width" (d_tree d)) as [[qw| | |]|]; try discriminate.
+  destruct (lookup "height" (d_tree d)) as [[qh| | |]|]; try discriminate.
+  destruct (Qcltb 0 qw && Qcltb 0 qh) eqn:E; [|discriminate]. qb2p.
+  destruct (lookup "regions" (d_tree d)) as [[?|?|l|]|]; try discriminate.
+  - destruct l as [|[q| | |] rest]; try discriminate;
+      match goal with |- context [match ?e with _ => _ end] => destruct e end; try discriminate;
+      intro X; injection X as <- <- _; auto.
+  - intro X; injection X as <- <- _. auto.
+Qed.
+
+(* malformed entries are refused: examples of the clauses of parse_die_rectangle *)
+Lemma parse_region_tag x y w h tag :
+  parse_region (YList [YNum x; YNum y; YNum w; YNum h; YStr tag]) <> None ->
+  tag <> KW_GROUND /\ (valid_identifier tag = true \/ tag = KW_BLOCKAGE) /\ 0 < w /\ 0 < h /\ 0 <= x /\ 0 <= y.
+Proof.
+  cbn [parse_region]. destruct (_ && _) eqn:E; [|intro H; exfalso; apply H; reflexivity]. intros _.
+  apply andb_true_iff in E. destruct E as [E Ph]. apply andb_true_iff in E. destruct E as [E Pw].
+  apply andb_true_iff in E. destruct E as [E Ng]. apply andb_true_iff in E. destruct E as [E Tg].
+  apply andb_true_iff in E. destruct E as [E Nh]. apply andb_true_iff in E. destruct E as [E Nw].
+  apply andb_true_iff in E. destruct E as [Nx Ny]. qb2p.
+  apply String.eqb_neq in Ng.
+  split; [exact Ng|]. split; [|auto].
+  apply orb_true_iff in Tg. destruct Tg as [Tg|Tg]; [|right; apply String.eqb_eq; exact Tg].
+  apply orb_true_iff in Tg. destruct Tg as [Tg|Tg]; [left; exact Tg|].
+  apply String.eqb_eq in Tg. contradiction.
+Qed.
+
+(* ---------------- the three theorems about the constructor ---------------- *)
+Definition grid_dims (eps w h : Qc) (ins : list Rect) : nat * nat :=
+  ((List.length (die_ys eps w h ins) - 1)%nat, (List.length (die_xs eps w h ins) - 1)%nat).
+
+Definition accepted_cover (eps w h : Qc) (ins : list Rect) (gs : list irect) : Prop :=
+  is_cover (fst (grid_dims eps w h ins)) (snd (grid_dims eps w h ins))
+           (occupied (die_xs eps w h ins) (die_ys eps w h ins) ins) gs = true.
+
+Lemma inputs_perm regions fx g :
+  Permutation (specialised regions ++ g ++ blockages regions ++ fx) (inputs regions fx ++ g).
+Proof.
+  unfold inputs. rewrite <- !app_assoc. apply Permutation_app_head.
+  rewrite (app_assoc (blockages regions) fx g). apply Permutation_app_comm.
+Qed.
+
+Theorem die_tiles eps d w h regions gs :
+  0 <= eps -> parse d = Some (w, h, regions) ->
+  let ins := inputs regions (d_fixed d) in
+  let xs := die_xs eps w h ins in
+  let ys := die_ys eps w h ins in
+  separated eps w h ins -> valid w h ins -> accepted_cover eps w h ins gs ->
+  let out := ins ++ map (ground_of xs ys) gs in
+  tiles out (die_rect w h) /\
+  (forall r, In r ins -> In r out) /\
+  Forall (fun g => region g = KW_GROUND /\ fixed g = false) (map (ground_of xs ys) gs).
+Proof.
+  intros He P ins xs ys Hs Hv C out. destruct (parse_pos _ _ _ _ P) as [Hw Hh].
+  split; [|split].
+  - apply (grid_tiles eps w h ins He Hw Hh Hs Hv gs C).
+  - intros r Hr. apply in_or_app. left. exact Hr.
+  - apply Forall_forall. intros g Hg. apply in_map_iff in Hg. destruct Hg as (x & <- & _). cbn. auto.
+Qed.
+
+Theorem die_accepts_valid eps aeps deps tin d w h regions gs :
+  0 <= eps -> 0 <= aeps -> 0 < deps -> 0 <= tin -> parse d = Some (w, h, regions) ->
+  let ins := inputs regions (d_fixed d) in
+  separated eps w h ins -> valid w h ins -> accepted_cover eps w h ins gs ->
+  die_with_cover eps aeps deps tin d gs =
+    Accept (map (ground_of (die_xs eps w h ins) (die_ys eps w h ins)) gs)
+           (specialised regions) (blockages regions) (d_fixed d).
+Proof.
+  intros He Ha Hd Ht P ins Hs Hv C. destruct (parse_pos _ _ _ _ P) as [Hw Hh].
+  unfold die_with_cover. rewrite P. fold ins. unfold accepted_cover, grid_dims in C. cbn [fst snd] in C.
+  rewrite C. cbn [negb].
+  rewrite (check_ok deps tin aeps w h); auto.
+  eapply tiles_perm; [apply Permutation_sym; apply inputs_perm|].
+  apply (grid_tiles eps w h ins He Hw Hh Hs Hv gs C).
+Qed.
+
+(* in particular the model's own greedy cover is accepted: the self-check can never fire *)
+Theorem die_model_accepts_valid eps aeps deps tin d w h regions :
+  0 <= eps -> 0 <= aeps -> 0 < deps -> 0 <= tin -> parse d = Some (w, h, regions) ->
+  let ins := inputs regions (d_fixed d) in
+  separated eps w h ins -> valid w h ins ->
+  exists ground, die_model eps aeps deps tin d =
+    Accept ground (specialised regions) (blockages regions) (d_fixed d).
+Proof.
+  intros He Ha Hd Ht P ins Hs Hv. eexists. unfold die_model.
+  apply (die_accepts_valid eps aeps deps tin d w h regions); auto.
+  unfold accepted_cover, grid_dims, die_cover. rewrite P. cbn [fst snd]. apply greedy_is_cover.
+Qed.
+
+Definition malformed (d : desc) : Prop := parse d = None.
+Definition leaves_die (tin : Qc) (d : desc) : Prop :=
+  exists w h regions r, parse d = Some (w, h, regions) /\ In r (inputs regions (d_fixed d)) /\
+    (xmin r < - tin \/ ymin r < - tin \/ w + tin < xmax r \/ h + tin < ymax r).
+Definition overlapping (aeps : Qc) (d : desc) : Prop :=
+  exists w h regions l1 r l2 s l3, parse d = Some (w, h, regions) /\
+    inputs regions (d_fixed d) = l1 ++ r :: l2 ++ s :: l3 /\ aeps < area_overlap r s.
+
+Theorem die_rejects_invalid eps aeps deps tin d gs :
+  malformed d \/ leaves_die tin d \/ overlapping aeps d ->
+  exists why, die_with_cover eps aeps deps tin d gs = Reject why.
+Proof.
+  intros [M|[L|O]]; unfold die_with_cover.
+  - rewrite M. eauto.
+  - destruct L as (w & h & regions & r & P & Hr & Out). rewrite P.
+    destruct (negb (is_cover _ _ _ gs)); [eauto|].
+    unfold check_rectangles.
+    assert (F : forallb (inside_tol tin w h)
+                  (specialised regions ++ map (ground_of (die_xs eps w h (inputs regions (d_fixed d)))
+                     (die_ys eps w h (inputs regions (d_fixed d)))) gs ++ blockages regions ++ d_fixed d) = false).
+    { rewrite (forallb_perm _ _ _ (inputs_perm regions (d_fixed d) _)).
+      destruct (forallb _ _) eqn:E; [|reflexivity]. exfalso. rewrite forallb_forall in E.
+      specialize (E r (in_or_app _ _ _ (or_introl Hr))). unfold inside_tol in E.
+      repeat (apply andb_true_iff in E; destruct E as [E ?]). qb2p. destruct Out as [?|[?|[?|?]]]; qlra. }
+    rewrite F. cbn. eauto.
+  - destruct O as (w & h & regions & l1 & r & l2 & s & l3 & P & E & Ov). rewrite P.
+    destruct (negb (is_cover _ _ _ gs)); [eauto|].
+    unfold check_rectangles. destruct (negb (forallb _ _)); [eauto|].
+    assert (F : no_overlaps aeps
+                  (specialised regions ++ map (ground_of (die_xs eps w h (inputs regions (d_fixed d)))
+                     (die_ys eps w h (inputs regions (d_fixed d)))) gs ++ blockages regions ++ d_fixed d) = false).
+    { rewrite (no_overlaps_perm aeps _ _ (inputs_perm regions (d_fixed d) _)).
+      destruct (no_overlaps aeps _) eqn:N; [|reflexivity]. exfalso.
+      apply no_overlaps_app_l in N. rewrite E, (no_overlaps_false aeps l1 r l2 s l3 Ov) in N. discriminate. }
+    rewrite F. cbn. eauto.
+Qed.
